@@ -316,13 +316,13 @@ def linear_unit(p, item, tier, seed):
             p.inconclusive.append(f"{kind} {mode} {n}x{m}: {x}")
     if not hard:
         return
-    replay = (REPLAY_PRELUDE + "from checks import c08_lin\n" + f"kind, mode, n, m, be = {item!r}\n" + "av, bv = {wit}\n"
+    replay = (REPLAY_PRELUDE + "from checks import c08_lin\n" + f"kind, mode, n, m, be = {item!r}\n" + "av, bv = @WIT@\n"
               "got, nbits = c08_lin.concrete_product(kind, mode, n, m, be, av, bv)\nwant = av * (bv if kind == 'mul' else av)\n"
               "print(hex(av), hex(bv), hex(got), hex(want))\nsys.exit(1 if got != want else 0)\n")
     if wit is not None:
         got, _ = c08_lin.concrete_product(kind, mode, n, m, be, wit[0], wit[1])
         if got != wit[0] * (wit[1] if kind == "mul" else wit[0]):
-            p.violation(f"mul:linear:{kind}:{mode}{':BE' if be else ''}", f"{kind} {mode} {n}x{m}: {hard[:2]}; operands {hex(wit[0])}, {hex(wit[1])} give {hex(got)}", replay.format(wit=repr(wit)))
+            p.violation(f"mul:linear:{kind}:{mode}{':BE' if be else ''}", f"{kind} {mode} {n}x{m}: {hard[:2]}; operands {hex(wit[0])}, {hex(wit[1])} give {hex(got)}", replay.replace('@WIT@', repr(wit)))
             return
     mm = concrete_mismatch(kind, mode, [n, m] if kind == "mul" else [n], big_endian=be)
     if mm is None:
